@@ -1,6 +1,8 @@
+import re
+
 from mindsdb_sql.parser.ast.base import ASTNode
 from mindsdb_sql.parser.utils import indent
-from mindsdb_sql.parser.ast.select.identifier import name_to_string
+from mindsdb_sql.parser.ast.select.identifier import name_to_string, TWO_WORD_KEYWORD_STARTS
 from mindsdb_sql.parser.ast.select.constant import Constant
 
 
@@ -96,6 +98,10 @@ class Show(ASTNode):
             ):
                 # it is a part of an identifier here, the other names are kept as they are printed
                 name = self.part_to_string(name)
+            first_word = re.match(r'[A-Za-z_][A-Za-z_0-9]*', name) if isinstance(name, str) else None
+            if first_word and self.category.split()[-1] in TWO_WORD_KEYWORD_STARTS:
+                # together with the last word of the category it would be read as one keyword (NULLS first, KNOWLEDGE base)
+                name = f'`{first_word.group(0)}`' + name[first_word.end():]
             out_str = f'SHOW {self.category} {name}{modes_str}'
         else:
             out_str = f'SHOW{modes_str} {self.category}'
